@@ -265,6 +265,26 @@ def r3(F, rep):
         raise AnalysisBroken("initial clamp of x_ext not found in calc_colvar_properties")
 
 
+def integrator_locals(f):
+    """Decl ids of the two force locals of the integrator, identified by ROLE (names may change):
+    ext    the local that receives the variable's force f (scaled back by the time-step factor): force on the coordinate
+    spring the local assigned, for variables that are not driven externally, the force of the coupling spring"""
+    ext, spring = None, None
+    for w, tgt in lvalue_writes(f):
+        t = X.strip(tgt)
+        if t["k"] != "DeclRefExpr" or t.get("st") != "local" or w.get("op") != "=":
+            continue
+        r = rhs_of(w)
+        if r is None:
+            continue
+        if ext is None and "this.f" in [X.key(x, f) for x in f.walk(r) if x["k"] == "MemberExpr"]:
+            ext = t["d"]
+        facts, _ = C.guard_facts(f, w)
+        if spring is None and any(x[0] == "false" and "f_cv_external" in x[1] for x in facts):
+            spring = t["d"]
+    return ext, spring
+
+
 def r4(F, rep):
     rep.rule("C17-R4", "force routing: update_forces_energy() adds fb to f before the integrator and fb_actual after it; in the "
                        "integrator the force on the extended coordinate is read from f before f is overwritten, f is then "
@@ -287,11 +307,23 @@ def r4(F, rep):
             any(t[0] == "true" and "f_cv_extended_Lagrangian" in t[1] for t in facts), func=u.q)
     f = F.one(INTEG)
     # f_ext = f / tsf  read before f is overwritten
-    reads = [w for w, op in writes_to(f, "f_ext") if False]
+    ext_d, spring_d = integrator_locals(f)
+    if ext_d is None or spring_d is None:
+        raise AnalysisBroken("integrator: the locals holding the force on the coordinate / the spring force were not found")
+    cres = X.const_locals(f)
+
+    def mentions_spring(e, depth=0):
+        if X.mentions(e, lambda y: y["k"] == "DeclRefExpr" and y.get("d") == spring_d):
+            return True
+        if depth < 3:
+            for y in f.walk(e):
+                if y["k"] == "DeclRefExpr" and y.get("d") in cres and mentions_spring(cres[y["d"]], depth + 1):
+                    return True
+        return False
     fext_defs = []
     for w, tgt in lvalue_writes(f):
         t = X.strip(tgt)
-        if t["k"] == "DeclRefExpr" and t.get("n") == "f_ext" and w["k"] in ("CXXOperatorCallExpr", "BinaryOperator") and w.get("op") == "=":
+        if t["k"] == "DeclRefExpr" and t.get("d") == ext_d and w["k"] in ("CXXOperatorCallExpr", "BinaryOperator") and w.get("op") == "=":
             r = rhs_of(w)
             if r is not None and "this.f" in [X.key(x, f) for x in f.walk(r) if x["k"] == "MemberExpr"]:
                 fext_defs.append(w)
@@ -301,9 +333,9 @@ def r4(F, rep):
         detail="the extended coordinate would feel the spring force twice and no bias force", func=f.q)
     for o in overw:
         r = rhs_of(o)
-        k = X.re_strip(X.key(r, f)) if r is not None else ""
-        rep.add("C17-R4", "f|assigned-spring", f.loc(o), "f is assigned `%s` (the reaction of the spring force f_system)" % k[:60],
-                "f_system" in k and ("-" in k), detail="with += the atoms would feel the bias force as well as the spring", func=f.q)
+        k = X.re_strip(X.key(r, f, cres)) if r is not None else ""
+        rep.add("C17-R4", "f|assigned-spring", f.loc(o), "f is assigned `%s` (the reaction of the spring force on the coordinate)" % k[:60],
+                r is not None and mentions_spring(r) and ("-" in k), detail="with += the atoms would feel the bias force as well as the spring", func=f.q)
         facts, _ = C.guard_facts(f, o)
         rep.add("C17-R4", "f|assigned-spring|guard", f.loc(o), "that assignment happens exactly when the variable is not driven externally",
                 any(t[0] == "false" and "f_cv_external" in t[1] for t in facts), func=f.q)
@@ -315,10 +347,10 @@ def r4(F, rep):
     adds = []
     for w, tgt in lvalue_writes(f):
         t = X.strip(tgt)
-        if t["k"] == "DeclRefExpr" and t.get("n") == "f_ext" and w.get("op") == "+=":
+        if t["k"] == "DeclRefExpr" and t.get("d") == ext_d and w.get("op") == "+=":
             adds.append(w)
-    rep.add("C17-R4", "fext|plus-system", f.loc(adds[0]) if adds else f.loc(), "f_ext += f_system on every path (%d site)" % len(adds),
-            len(adds) == 1 and "f_system" in X.key(rhs_of(adds[0]), f) and not f.cfg.real_guards(adds[0]) or
+    rep.add("C17-R4", "fext|plus-system", f.loc(adds[0]) if adds else f.loc(), "the spring force is added to the force on the coordinate on every path (%d site)" % len(adds),
+            len(adds) == 1 and mentions_spring(rhs_of(adds[0])) and not f.cfg.real_guards(adds[0]) or
             (len(adds) == 1 and all("prev_timestep" in X.key(f.nodes[c], f) or "n_timesteps" in X.key(f.nodes[c], f) for c, p in f.cfg.real_guards(adds[0]))),
             detail="the coordinate would not feel the coupling spring", func=f.q)
 
@@ -333,12 +365,13 @@ def r5(F, rep):
     spring = []
     for w, tgt in lvalue_writes(f):
         t = X.strip(tgt)
-        if t["k"] == "DeclRefExpr" and t.get("n") == "f_system" and w.get("op") == "=":
+        if t["k"] == "DeclRefExpr" and t.get("st") == "local" and w.get("op") == "=":
             facts, _ = C.guard_facts(f, w)
             if any(x[0] == "false" and "f_cv_external" in x[1] for x in facts):
                 spring.append(w)
+    spring = spring[:1]
     if not pot or not spring:
-        raise AnalysisBroken("integrator: potential_energy / f_system assignments not found")
+        raise AnalysisBroken("integrator: coupling energy / spring force assignments not found")
 
     def metric(w, fam):
         out = []
